@@ -602,12 +602,40 @@ func hugeRepeat(sv, nv any) bool {
 	return f > 2000 && f*float64(len(s)) < math.MaxInt32
 }
 
+// setpath([1114112]; v) succeeds with an array of a million nulls (up to 2^29 elements): left out; the limit
+// itself (index >= 2^29 is an error) stays in
+func hugeIndexPath(p any) bool {
+	xs, ok := p.([]any)
+	if !ok {
+		return false
+	}
+	for _, x := range xs {
+		if n, ok := x.(json.Number); ok {
+			x = gojq.VerifParseNumber(n)
+		}
+		switch i := x.(type) {
+		case int:
+			if i > 2000 && i < 0x20000000 {
+				return true
+			}
+		case float64:
+			if i > 2000 && i < 0x20000000 {
+				return true
+			}
+		}
+	}
+	return false
+}
+
 func (r *runner) call(n *native, in any, args []any) {
 	c := r.c
 	if (n.name == "jn" || n.name == "yn") && len(args) > 0 && hugeOrder(args[0]) {
 		return
 	}
 	if n.name == "_multiply" && (hugeRepeat(args[0], args[1]) || hugeRepeat(args[1], args[0])) {
+		return
+	}
+	if n.name == "setpath" && hugeIndexPath(args[0]) {
 		return
 	}
 	inS := SexpVal(in)
